@@ -240,8 +240,10 @@ def run_json_crashes(chk: Check, label, prev_states, new_state, cfg_info):
             d = tempfile.mkdtemp(prefix="vpc06k"); shutil.rmtree(d); shutil.copytree(base, d)
             ev, saved = strace_events(d, statefile, inject=(nm, j))
             # the kill must have landed on the intended call: the folder operations seen are the baseline's first g (+ the killed one)
-            want = [(e[0], e[4]) for e in events[:g + 1]]
-            got = [(e[0], e[4]) for e in ev]
+            # (names of temporary files may contain process or thread ids: runs of digits in names other than the five are not compared)
+            canon = lambda b: b if b in FILES else re.sub(r"\d{3,}", "#", b)
+            want = [(e[0], canon(e[4])) for e in events[:g + 1]]
+            got = [(e[0], canon(e[4])) for e in ev]
             return job, d, got in (want, want[:-1]), saved
 
         with ThreadPoolExecutor(max_workers=12) as ex:
@@ -567,8 +569,10 @@ def run_sqlite_kills(chk: Check, s1, s2, label, max_kills):
             d = tempfile.mkdtemp(prefix="vpc06qd"); shutil.rmtree(d); shutil.copytree(base, d)
             ev, saved = strace_events(d, statefile, backend="sqlite", inject=(nm, j), names=names)
             # the kill must have landed on the intended call: the operations seen are the baseline's first g (+ the killed one)
-            want = [(e[0], e[4]) for e in events[:g + 1]]
-            got = [(e[0], e[4]) for e in ev]
+            # (names of temporary files may contain process or thread ids: runs of digits in names other than the five are not compared)
+            canon = lambda b: b if b in FILES else re.sub(r"\d{3,}", "#", b)
+            want = [(e[0], canon(e[4])) for e in events[:g + 1]]
+            got = [(e[0], canon(e[4])) for e in ev]
             return job, d, saved, got in (want, want[:-1])
 
         with ThreadPoolExecutor(max_workers=12) as ex:
